@@ -42,6 +42,13 @@ def check(run):
             s += ["batch 0x0 - -", "empty", "root"]
             seqs.append(s)
         run.differential(f"empty-{backend}", seqs)
+    # one range write longer than any internal batch (2^14 leaves) at an unaligned start: every written position is occupied, also the tail
+    big = []
+    for backend in (["pm", "opt"] if quick else treegen.BACKENDS):
+        n = 2**14 + 5
+        big.append([f"tree new {backend} 15", f"range 0x3 gen:{hex(n)}:0x10", "empty", "next", f"del {hex(3 + 2**14)}", "empty",
+                    f"batch {hex(3 + n)} gen:{hex(2**14 + 2)}:0x5000 -", "empty", "next"])
+    run.differential("empty-long-ranges", big, spec=False, shrink=False)
     # persistent backend: close / reopen (open finding C15-pm-reopen-flags: the flag cache is not persisted)
     seqs = []
     for k in range(20 if quick else 200):
